@@ -366,6 +366,9 @@ func runPipeline(c *hx.Ctx, r *hx.Rng, ri int, twoVers, useUnpub, concurrent boo
 			}
 			var d *CDid
 			d, b, err = NewCDid(rr.Split("did"), ref.SHA256, []string{ref.KeyTypes[(ri+di)%5], "P-256"}, maxDelta, false, patches, opaque, genOrigin(rr), "")
+			if d != nil && di%2 == 1 {
+				d.ReuseSigners = true
+			}
 			if err != nil {
 				fail("client.NewCreateRequest refused valid inputs: "+err.Error(), nil)
 				return false
